@@ -766,6 +766,12 @@ func solveOb(ob *Obligation, o SolveOpts) {
 	}
 	text := ob.script.render(ob, nil, nil)
 	r := solveText(text, obFile(o.Dir, ob), o)
+	if ob.Cover && r.status != "sat" && r.status != "unsat" {
+		// a vacuity check that ran out of time under load is retried once with a longer limit
+		o2 := o
+		o2.TimeoutMs = o.TimeoutMs * 4
+		r = solveText(text, obFile(o.Dir, ob), o2)
+	}
 	ob.Status, ob.Solver, ob.Seconds, ob.Raw = r.status, r.solver, r.secs, r.out
 	if ob.Cover {
 		// cover obligations want SAT
